@@ -20,6 +20,10 @@ MANIFEST = dict(
          "configurations (SACKED_SEGMENTS limit unreachable); generator coverage bounds what the tie sees.",
     technique="Lean 4 proof (invariants over packet histories, simulation between key functions) + model/impl correspondence",
     design="DESIGN.md §6 C07")
+MANIFEST["note"] += (" Constants and limits of the C++ source that the model restates (translator/gen_limits.py -> Gen/Limits.lean: "
+                     "compiled probe + preprocessed function bodies at named anchors) are tied to the model's numerals by the "
+                     "theorems of lean/TinsModel/Props/Limits/C07.lean (audit: Audit/LimitsC07.lean); tools/LIMITS-INVENTORY.md lists "
+                     "what is tied and what is not.")
 
 FIN, SYN, RST, PSH, ACK = 1, 2, 4, 8, 16
 M32 = 2 ** 32
